@@ -20,7 +20,7 @@ tvars == <<lvars, l, postOf, cbal, obs>>
 
 Trace == ndJsonDeserialize(TraceFile)
 
-NoObs == [h |-> 0, liab |-> <<>>, rew |-> <<>>, time |-> 0, rel |-> <<>>, app |-> <<>>, pays |-> <<>>, unpaid |-> 0, sur |-> <<>>, surdrop |-> FALSE, collok |-> TRUE]
+NoObs == [h |-> 0, liab |-> <<>>, rew |-> <<>>, time |-> 0, rel |-> <<>>, app |-> <<>>, pays |-> <<>>, unpaid |-> 0, sur |-> <<>>, surdrop |-> FALSE, collok |-> TRUE, fusebad |-> <<>>]
 
 TInit == LInit /\ l = 1 /\ postOf = <<>> /\ cbal = <<>> /\ obs = NoObs /\ TLCSet(1, 1)
 
@@ -136,7 +136,8 @@ TMom == /\ IsEvent("Mom")
         /\ obs' = [h |-> E.h, liab |-> E.liab, rew |-> E.rew, time |-> E.time, rel |-> E.rel, app |-> E.app, pays |-> E.pays,
                    unpaid |-> UnpaidEpochs(obs.rew, E.rew),
                    sur |-> SurplusOf(E.liab, cbal'), surdrop |-> SurplusDrops(obs.sur, SurplusOf(E.liab, cbal')),
-                   collok |-> CollectionsBalance(obs.rew, E.rew)]
+                   collok |-> CollectionsBalance(obs.rew, E.rew),
+                   fusebad |-> IF "fusebad" \in DOMAIN E THEN E.fusebad ELSE <<>>]
 
 TNext == TReset \/ TGenesis \/ TSend \/ TRecv \/ TMisRecv \/ TCRecv \/ TMom
 
@@ -164,6 +165,9 @@ ReleasedRight == \A i \in 1..Len(obs.rel) : ReleaseOK(obs.rel[i])
 
 EveryConsumedEpochPaid == obs.unpaid = 0
 CollectedRight == obs.collok
+\* C12 / C10: the fused amount an account's plasma is computed from (a counter per beneficiary) is the sum of the fusion entries
+\* made for it, at every momentum
+FusedAmountsAddUp == obs.fusebad = <<>>
 SurplusKept == ~obs.surdrop
 
 HighWater == TLCSet(1, IF TLCGet(1) > l THEN TLCGet(1) ELSE l)
